@@ -404,6 +404,8 @@ CHECKS["C12"].update(text="File level (C12File): datetime_property_roundtrip / d
 CHECKS["C16"].update(text="File level (C16File): names_survive_write_read / no_aliasing — for every accepted writer program the (group, channel) name pairs read back are exactly those "
     "written, distinct names give distinct objects, and the object found under a name holds exactly the properties and the concatenated data written under that name; names "
     "are arbitrary byte strings in the model and string_path_bytes proves the byte-level path equals the UTF-8 encoding of the Python path string for all strings. "
+    "Composed on the source-derived definitions (C16TiedRoundtrip): generated_roundtrip / generated_injective / generated_shapes state round-trip and non-aliasing for "
+    "the translated _components_to_path and _path_components themselves, with no hand-written model function left in the statement. "
     + CHECKS["C16"]["text"])
 CHECKS["C19"].update(text=CHECKS["C19"]["text"].replace("Exclusions stated in the theorems: string channels (offset tables), interleaved segments are bounded by the union of planned chunks,",
     "window_io_bound_strings (C19Strings): for encoded files also string channels — every read lies inside the requested channel's bytes (offset table + characters) of a "
